@@ -17,6 +17,7 @@ import ast
 import re
 from typing import Any, Dict, List, Optional, Sequence, Set, Tuple
 
+from engine.srcmatch import U
 from engine.effects import mutations
 from engine.model import AnalysisError, Module, Program, class_fields, decorators, dotted, mro, resolve_method, walk_no_nested
 from rules.c05 import all_methods
@@ -68,14 +69,14 @@ def field_types(mod: Module, clsname: str) -> Dict[str, str]:
     c = mod.cls(clsname)
     for st in c.body:
         if isinstance(st, ast.AnnAssign) and isinstance(st.target, ast.Name):
-            out[st.target.id] = ast.unparse(st.annotation)
+            out[st.target.id] = U(st.annotation)
     ms = mod.methods(clsname)
     if '__init__' in ms:
         init = ms['__init__']
-        pann = {a.arg: ast.unparse(a.annotation) for a in init.args.args + init.args.kwonlyargs if a.annotation is not None}
+        pann = {a.arg: U(a.annotation) for a in init.args.args + init.args.kwonlyargs if a.annotation is not None}
         for n in ast.walk(init):
             if isinstance(n, ast.AnnAssign) and isinstance(n.target, ast.Attribute) and dotted(n.target.value) == 'self':
-                out[n.target.attr] = ast.unparse(n.annotation)
+                out[n.target.attr] = U(n.annotation)
             elif isinstance(n, ast.Assign) and isinstance(n.value, ast.Name) and n.value.id in pann:
                 for t in n.targets:
                     if isinstance(t, ast.Attribute) and dotted(t.value) == 'self' and t.attr not in out:
@@ -91,12 +92,12 @@ def attrs_fields(mod: Module, clsname: str) -> List[Tuple[str, Optional[str]]]:
     """(field name, converter name or None) in declaration order"""
     out = []
     for st in mod.cls(clsname).body:
-        if isinstance(st, ast.AnnAssign) and isinstance(st.target, ast.Name) and 'ClassVar' not in ast.unparse(st.annotation):
+        if isinstance(st, ast.AnnAssign) and isinstance(st.target, ast.Name) and 'ClassVar' not in U(st.annotation):
             conv = None
             if isinstance(st.value, ast.Call) and (dotted(st.value.func) or '').endswith('field'):
                 for k in st.value.keywords:
                     if k.arg == 'converter':
-                        conv = ast.unparse(k.value)
+                        conv = U(k.value)
             out.append((st.target.id, conv))
     return out
 
@@ -111,9 +112,9 @@ def converter_kind(mod: Module, conv: str) -> str:
 
     def scan(stmts: Sequence[ast.stmt]) -> None:
         for st in stmts:
-            if isinstance(st, ast.If) and 'TYPE_CHECKING' in ast.unparse(st.test):
-                scan(st.orelse if ast.unparse(st.test) == 'TYPE_CHECKING' else st.body)     # the arm that runs
-                if not st.orelse and ast.unparse(st.test) == 'TYPE_CHECKING':
+            if isinstance(st, ast.If) and 'TYPE_CHECKING' in U(st.test):
+                scan(st.orelse if U(st.test) == 'TYPE_CHECKING' else st.body)     # the arm that runs
+                if not st.orelse and U(st.test) == 'TYPE_CHECKING':
                     continue
             elif isinstance(st, ast.FunctionDef) and st.name == conv:
                 runtime_defs.append(st)
@@ -243,7 +244,7 @@ class CopyAnalysis:
         if isinstance(e, ast.Attribute):
             if dotted(e.value) == selfname:
                 return 'alias', f'the source object\'s `{e.attr}` itself'
-            return 'unknown', ast.unparse(e)
+            return 'unknown', U(e)
         if isinstance(e, (ast.ListComp, ast.SetComp, ast.GeneratorExp, ast.DictComp)):
             elt = e.value if isinstance(e, ast.DictComp) else e.elt
             if not elem_mutable:
@@ -256,7 +257,7 @@ class CopyAnalysis:
                     return 'fresh', f'comprehension constructing {f.id}'
                 if dotted(f) in ('attrs.evolve', 'attr.evolve', 'evolve', 'dataclasses.replace'):
                     return 'fresh', 'comprehension of evolve() copies (carried-over fields are checked per field)'
-            return 'shallow', f'new container but its elements `{ast.unparse(elt)}` are the source\'s own mutable objects'
+            return 'shallow', f'new container but its elements `{U(elt)}` are the source\'s own mutable objects'
         if isinstance(e, ast.Call):
             f = e.func
             d = dotted(f) or ''
@@ -264,7 +265,7 @@ class CopyAnalysis:
             if isinstance(f, ast.Attribute) and f.attr in ('copy', '__copy__', '__deepcopy__'):
                 if isinstance(f.value, ast.Attribute) and dotted(f.value.value) == selfname and elements_mutable(self.types.get(f.value.attr)) \
                         and ann_tokens(self.types.get(f.value.attr, '')) & CONTAINER_WORDS:
-                    return 'shallow', f'{ast.unparse(f.value)}.copy() copies the container but not its mutable elements'
+                    return 'shallow', f'{U(f.value)}.copy() copies the container but not its mutable elements'
                 return 'fresh', '.copy()'
             if short in COPYING_CTORS and isinstance(f, ast.Name):
                 if elem_mutable and short in ('list', 'set', 'dict', 'tuple', 'frozenset'):
@@ -290,11 +291,11 @@ class CopyAnalysis:
                                          if isinstance(a, ast.Attribute) and dotted(a.value) == 'self')
                                 st, why = sub.copy_status(rt.value, em or elem_mutable, depth + 1)
                                 if st != 'fresh':
-                                    return st, f'{tok}.{f.attr}() returns {ast.unparse(rt.value)}: {why}'
+                                    return st, f'{tok}.{f.attr}() returns {U(rt.value)}: {why}'
                             return 'fresh', f'{tok}.{f.attr}() builds new objects'
                 return 'unknown', f'method {f.attr} on field {fld} of unknown class'
-            return 'unknown', ast.unparse(e)[:60]
-        return 'unknown', ast.unparse(e)[:60]
+            return 'unknown', U(e)[:60]
+        return 'unknown', U(e)[:60]
 
     def fields_read(self, e: ast.AST, selfname: str = 'self') -> Set[str]:
         out = set()
@@ -373,7 +374,7 @@ def analyse_copy(ctx: Any, prog: Program, modname: str, clsname: str, meth: str,
         ok = f in reads or (f in extra_ok and bool(srcs) and any(ca.fields_read(e) for e, _ in srcs))
         # a field may legitimately be fed from a *property/alias* of itself (Entity._fixup via self._fixup...)
         ctx.check('C09.P1', ok, mod, fn, f'field `{f}` of {clsname} does not reach the copy ' +
-                  (f'(it is set from `{ast.unparse(srcs[0][0])[:50]}` which never reads self.{f})' if srcs else '(never passed to the constructor nor assigned on the result)'),
+                  (f'(it is set from `{U(srcs[0][0])[:50]}` which never reads self.{f})' if srcs else '(never passed to the constructor nor assigned on the result)'),
                   func=qual, text=f'{clsname}.{f} copied')
     # ---- P2 ----------------------------------------------------------------------------------------
     for f, srcs in flows.items():
@@ -384,17 +385,17 @@ def analyse_copy(ctx: Any, prog: Program, modname: str, clsname: str, meth: str,
             continue
         for e, how in srcs:
             if how == 'copying' and not elements_mutable(ann):
-                ctx.check('C09.P2', True, mod, fn, f'{f}: constructor copies the argument', func=qual, text=f'{clsname}.{f} <- {ast.unparse(e)[:50]}')
+                ctx.check('C09.P2', True, mod, fn, f'{f}: constructor copies the argument', func=qual, text=f'{clsname}.{f} <- {U(e)[:50]}')
                 continue
             st, why = ca.copy_status(e, elements_mutable(ann))
             if how == 'copying' and st == 'alias':
                 # container copied by __init__, elements are mutable: aliasing of elements
-                st, why = 'shallow', f'{clsname}.__init__ copies the container `{ast.unparse(e)}` but its elements are mutable objects'
+                st, why = 'shallow', f'{clsname}.__init__ copies the container `{U(e)}` but its elements are mutable objects'
             if st == 'unknown':
-                raise AnalysisError(f'{qual}: cannot classify how `{ast.unparse(e)[:60]}` ({why}) reaches field {f}')
+                raise AnalysisError(f'{qual}: cannot classify how `{U(e)[:60]}` ({why}) reaches field {f}')
             ok = st == 'fresh'
             ctx.check('C09.P2', ok, mod, fn, f'mutable field `{f}` ({ann}) of the copy is {("the same object as " if st == "alias" else "only shallowly copied: ")}{why}; '
-                      'mutating one side is visible through the other', func=qual, text=f'{clsname}.{f} <- {ast.unparse(e)[:50]}')
+                      'mutating one side is visible through the other', func=qual, text=f'{clsname}.{f} <- {U(e)[:50]}')
     # evolve()-style rebuilds: named fields replaced, every other field carried over *by reference*
     for n in ast.walk(fn):
         if isinstance(n, ast.ListComp) and isinstance(n.elt, ast.Call) and dotted(n.elt.func) in ('attrs.evolve', 'attr.evolve', 'evolve', 'dataclasses.replace') \
@@ -406,7 +407,7 @@ def analyse_copy(ctx: Any, prog: Program, modname: str, clsname: str, meth: str,
                 src_ann = types.get(it.attr)
             sub = next((t for t in ann_tokens(src_ann or '') if mod.has_class(t)), None)
             if sub is None or not is_attrs(mod, sub):
-                raise AnalysisError(f'{qual}: cannot determine the class rebuilt by evolve() over `{ast.unparse(it)}`')
+                raise AnalysisError(f'{qual}: cannot determine the class rebuilt by evolve() over `{U(it)}`')
             stypes = field_types(mod, sub)
             changed = {k.arg: k.value for k in n.elt.keywords if k.arg}
             for sf, _ in attrs_fields(mod, sub):
@@ -416,8 +417,8 @@ def analyse_copy(ctx: Any, prog: Program, modname: str, clsname: str, meth: str,
                         sca = CopyAnalysis(ctx, prog, mod, sub, fn, {})
                         st, why = sca.copy_status(e, elements_mutable(stypes.get(sf)), selfname=var)
                         if st == 'unknown':
-                            raise AnalysisError(f'{qual}: cannot classify `{ast.unparse(e)}` for {sub}.{sf}')
-                        ctx.check('C09.P2', st == 'fresh', mod, n.elt, f'{sub}.{sf} of the rebuilt object aliases the source: {why}', func=qual, text=f'{sub}.{sf} <- {ast.unparse(e)[:40]}')
+                            raise AnalysisError(f'{qual}: cannot classify `{U(e)}` for {sub}.{sf}')
+                        ctx.check('C09.P2', st == 'fresh', mod, n.elt, f'{sub}.{sf} of the rebuilt object aliases the source: {why}', func=qual, text=f'{sub}.{sf} <- {U(e)[:40]}')
                     ctx.check('C09.P1', True, mod, n.elt, 'replaced explicitly', func=qual, text=f'{sub}.{sf} copied')
                 else:
                     ctx.check('C09.P1', True, mod, n.elt, 'carried over by evolve()', func=qual, text=f'{sub}.{sf} copied')
@@ -450,8 +451,8 @@ def analyse_copy(ctx: Any, prog: Program, modname: str, clsname: str, meth: str,
                     sca = CopyAnalysis(ctx, prog, mod, sub, fn, {})
                     st, why = sca.copy_status(e, elements_mutable(stypes.get(sf)), selfname=var)
                     if st == 'unknown':
-                        raise AnalysisError(f'{qual}: cannot classify `{ast.unparse(e)}` for {sub}.{sf}')
-                    ctx.check('C09.P2', st == 'fresh', mod, n.elt, f'{sub}.{sf} of the rebuilt vertex aliases the source: {why}', func=qual, text=f'{sub}.{sf} <- {ast.unparse(e)[:40]}')
+                        raise AnalysisError(f'{qual}: cannot classify `{U(e)}` for {sub}.{sf}')
+                    ctx.check('C09.P2', st == 'fresh', mod, n.elt, f'{sub}.{sf} of the rebuilt vertex aliases the source: {why}', func=qual, text=f'{sub}.{sf} <- {U(e)[:40]}')
 
 
 def p4_shared_child_list(ctx: Any, kv: Any) -> None:
@@ -469,7 +470,7 @@ def p4_shared_child_list(ctx: Any, kv: Any) -> None:
     def under_list_else(n: ast.AST) -> bool:
         p = kv.parents.get(n)
         while p is not None and not isinstance(p, ast.FunctionDef):
-            if isinstance(p, ast.If) and 'isinstance' in ast.unparse(p.test) and 'list' in ast.unparse(p.test) and any(n is x or any(n is y for y in ast.walk(x)) for x in p.orelse):
+            if isinstance(p, ast.If) and 'isinstance' in U(p.test) and 'list' in U(p.test) and any(n is x or any(n is y for y in ast.walk(x)) for x in p.orelse):
                 return True
             p = kv.parents.get(p)
         return False
@@ -483,9 +484,9 @@ def p4_shared_child_list(ctx: Any, kv: Any) -> None:
             replaces = [st for st in n.body for x in ast.walk(st) if isinstance(x, ast.Assign) and any(isinstance(t, ast.Attribute) and t.attr == '_value' for t in x.targets) and isinstance(x.value, (ast.ListComp, ast.List, ast.Call))]
             if not replaces or not isinstance(n.test, ast.BoolOp) or not isinstance(n.test.op, ast.And):
                 continue
-            weak = [v for v in n.test.values if (isinstance(v, ast.Attribute) and v.attr == '_value') or (isinstance(v, ast.Call) and dotted(v.func) == 'len') or (isinstance(v, ast.Compare) and 'len(' in ast.unparse(v))]
-            if weak and any('isinstance' in ast.unparse(v) for v in n.test.values):
-                ctx.check('C09.P4', False, kv, n, f'`{ast.unparse(alias[0])}` lets the copy start with the source\'s child list, and it is only replaced when `{ast.unparse(n.test)}`: an *empty* block keeps the very same list object '
+            weak = [v for v in n.test.values if (isinstance(v, ast.Attribute) and v.attr == '_value') or (isinstance(v, ast.Call) and dotted(v.func) == 'len') or (isinstance(v, ast.Compare) and 'len(' in U(v))]
+            if weak and any('isinstance' in U(v) for v in n.test.values):
+                ctx.check('C09.P4', False, kv, n, f'`{U(alias[0])}` lets the copy start with the source\'s child list, and it is only replaced when `{U(n.test)}`: an *empty* block keeps the very same list object '
                           'in the copy and the original, so children added to one appear in the other', func='Keyvalues.copy', text='child list replaced for every block (also empty ones)')
 
 
@@ -515,9 +516,9 @@ def run(ctx: Any, prog: Program) -> None:
         for e in exprs:
             st, why = ca.copy_status(e, True)
             if st == 'unknown':
-                raise AnalysisError(f'EntityFixup.{meth}: cannot classify `{ast.unparse(e)}`')
-            ctx.check('C09.P2', st == 'fresh', vm, fn, f'EntityFixup.{meth} hands out `{ast.unparse(e)}`: {why}; the FixupValue objects (mutable: .value is assigned by '
-                      '__setitem__) are then shared between the entity and its copy', func='EntityFixup.' + meth, text=f'EntityFixup.{meth} <- {ast.unparse(e)[:40]}')
+                raise AnalysisError(f'EntityFixup.{meth}: cannot classify `{U(e)}`')
+            ctx.check('C09.P2', st == 'fresh', vm, fn, f'EntityFixup.{meth} hands out `{U(e)}`: {why}; the FixupValue objects (mutable: .value is assigned by '
+                      '__setitem__) are then shared between the entity and its copy', func='EntityFixup.' + meth, text=f'EntityFixup.{meth} <- {U(e)[:40]}')
     # ---- P3 ------------------------------------------------------------------------------------------
     BINOPS = ['add', 'sub', 'mul', 'truediv', 'floordiv', 'mod', 'matmul', 'divmod']
     names = [f'__{o}__' for o in BINOPS] + [f'__r{o}__' for o in BINOPS] + ['__neg__', '__pos__', '__abs__', '__round__', '__invert__']
@@ -536,9 +537,9 @@ def run(ctx: Any, prog: Program) -> None:
                 # calls of the private in-place mutators on an operand itself
                 for c in walk_no_nested(fn):
                     if isinstance(c, ast.Call) and isinstance(c.func, ast.Attribute) and c.func.attr in ('_mat_mul',) and dotted(c.func.value) in params[:2]:
-                        muts.append(type('M', (), {'node': c, 'kind': 'call:_mat_mul', 'target': ast.unparse(c.func)})())
+                        muts.append(type('M', (), {'node': c, 'kind': 'call:_mat_mul', 'target': U(c.func)})())
                     if isinstance(c, ast.Call) and isinstance(c.func, ast.Attribute) and c.func.attr in ('_vec_rot', '_to_angle') and c.args and dotted(c.args[0]) in params[:2]:
-                        muts.append(type('M', (), {'node': c, 'kind': 'call:' + c.func.attr, 'target': ast.unparse(c.args[0])})())
+                        muts.append(type('M', (), {'node': c, 'kind': 'call:' + c.func.attr, 'target': U(c.args[0])})())
                 ctx.check('C09.P3', not muts, modobj, muts[0].node if muts else fn,
                           (f'{cname}.{n} mutates an operand: {muts[0].kind} on `{muts[0].target}` - the operator is documented to produce a new value') if muts else 'operands untouched',
                           func=f'{cname}.{n}', text=f'{cname}.{n} pure' if not muts else f'{cname}.{n}: {muts[0].kind} {muts[0].target}')
@@ -556,7 +557,7 @@ def run(ctx: Any, prog: Program) -> None:
             for r in [x for x in walk_no_nested(fn) if isinstance(x, ast.Return) and x.value is not None]:
                 n_ret += 1
                 is_operand = isinstance(r.value, ast.Name) and r.value.id in params[:2]
-                ctx.check('C09.P3', not is_operand or cname in FROZEN_ONLY, mt, r, f'{cname}.{n} returns its operand `{ast.unparse(r.value)}` itself: for a mutable {cname.replace("Base", "")} the result of the operator is then the same '
+                ctx.check('C09.P3', not is_operand or cname in FROZEN_ONLY, mt, r, f'{cname}.{n} returns its operand `{U(r.value)}` itself: for a mutable {cname.replace("Base", "")} the result of the operator is then the same '
                           'object as the operand, and an in-place change of the result changes the operand', func=f'{cname}.{n}', text=f'{cname}.{n}: result is a new object')
     if n_ret < 30:
         raise AnalysisError(f'P3: only {n_ret} operator returns examined')
@@ -586,12 +587,12 @@ def run(ctx: Any, prog: Program) -> None:
                         arg = c.args[-1]
                         handed_copy = isinstance(arg, ast.Call) and isinstance(arg.func, ast.Attribute) and arg.func.attr == 'copy'
                         okd = handed_copy or not stores_argument(c.func.attr)
-                        ctx.check('C09.P4', okd, kv, c, f'Keyvalues.{name} delegates to {c.func.attr}(`{ast.unparse(arg)}`), and Keyvalues.{c.func.attr} stores the very object it is given: the result of the operator '
-                                  'then shares that subtree with the right operand, and editing either changes the other', func='Keyvalues.' + name, text=f'{name}: delegates {c.func.attr}({ast.unparse(arg)})')
+                        ctx.check('C09.P4', okd, kv, c, f'Keyvalues.{name} delegates to {c.func.attr}(`{U(arg)}`), and Keyvalues.{c.func.attr} stores the very object it is given: the result of the operator '
+                                  'then shares that subtree with the right operand, and editing either changes the other', func='Keyvalues.' + name, text=f'{name}: delegates {c.func.attr}({U(arg)})')
                     continue
                 arg = c.args[-1]
                 okc = isinstance(arg, ast.Call) and isinstance(arg.func, ast.Attribute) and arg.func.attr == 'copy'
-                ctx.check('C09.P4', okc, kv, c, f'Keyvalues.{name} adds `{ast.unparse(arg)}` without copying it: the other tree\'s node would be shared', func='Keyvalues.' + name)
+                ctx.check('C09.P4', okc, kv, c, f'Keyvalues.{name} adds `{U(arg)}` without copying it: the other tree\'s node would be shared', func='Keyvalues.' + name)
 
 
 MUTANTS = [
